@@ -2,7 +2,7 @@
 (* Layer P for C20: how the effective configuration of a run is determined                      *)
 (* (docs/src/usage/configuration.md), and what -g / --generate-config must write.                *)
 (* A setting's value is "" when absent; values are opaque strings.                                *)
-EXTENDS Sequences, FiniteSets
+EXTENDS Sequences, FiniteSets, Naturals
 
 Settings == {"swift_prefix", "kotlin_prefix", "java_package", "scala_package", "go_package"}
 Absent == ""
@@ -12,6 +12,12 @@ GivenEmpty == "<given-empty>"
 \* command line wins whenever the option is given, then the file, then the default (empty)
 Effective(cli, file) == [s \in Settings |-> IF cli[s] = GivenEmpty THEN Absent
                                              ELSE IF cli[s] # Absent THEN cli[s] ELSE IF file[s] # Absent THEN file[s] ELSE Absent]
+
+\* which file is THE configuration file: the one named by -c when the option is given; else the typeshare.toml found first when walking
+\* from the working directory (level 0) up through its ancestors (level 1 = parent, 2 = grandparent, ...); else none (defaults).
+\* present: the set of levels that have a typeshare.toml.
+Nearest(present) == CHOOSE l \in present : \A k \in present : l <= k
+ChosenFile(flagGiven, present) == IF flagGiven THEN "flag" ELSE IF present = {} THEN "none" ELSE Nearest(present)
 
 \* which settings a language's output exposes, and where
 Exposes(lang) == CASE lang = "swift" -> {"swift_prefix"}
